@@ -36,5 +36,87 @@ def apply() -> None:
             return ("", start, MidChunkError("invalid continuation byte"))
         return (out, end, err)
 
+    _patch_percent_format()
     utf_8.Utf8StemEncoder._encode_chunk = classmethod(_encode_chunk)
     utf_8.Utf8StemEncoder._decode_chunk = classmethod(_decode_chunk)
+
+
+def _patch_percent_format() -> None:
+    """'%'-formatting without realising the arguments.
+
+    CrossHair 0.0.110 implements str.__mod__ by deep-realising the arguments, which turns every
+    error message that mentions a symbolic number ("expected %d bytes, got %d") into an
+    enumeration of that number's values.  For templates that only use %s %d %i %r %% the same
+    string is built by concatenating str()/repr() of the arguments, which CrossHair keeps lazy.
+    Anything else falls back to the original (realising) behaviour.
+    """
+    import re
+
+    from crosshair import core
+    from crosshair.core import deep_realize
+    from crosshair.tracers import NoTracing
+
+    spec = re.compile(r"%([sdir%])")
+
+    def _str_percent_format(self, other):
+        with NoTracing():
+            simple = type(self) is str and "%" in self and "%" not in spec.sub("", self)
+            pieces = spec.split(self) if simple else None
+        if not simple:
+            if not isinstance(self, str):
+                raise TypeError
+            return self.__mod__(deep_realize(other))
+        args = other if isinstance(other, tuple) else (other,)
+        out = []
+        k = 0
+        for idx, piece in enumerate(pieces):
+            if idx % 2 == 0:
+                out.append(piece)
+            elif piece == "%":
+                out.append("%")
+            else:
+                if k >= len(args):
+                    raise TypeError("not enough arguments for format string")
+                a = args[k]
+                k += 1
+                if piece in "di":
+                    if not isinstance(a, int):
+                        return self.__mod__(deep_realize(other))
+                    out.append(str(int(a)) if isinstance(a, bool) else str(a))
+                elif piece == "s":
+                    out.append(str(a))
+                else:
+                    out.append(repr(a))
+        if k != len(args):
+            raise TypeError("not all arguments converted during string formatting")
+        return "".join(out)
+
+    core._PATCH_REGISTRATIONS[str.__mod__] = _str_percent_format
+
+
+def opaque_int_text() -> None:
+    """Opt-in (called from a harness prelude): text renderings of *symbolic* ints / bytes become "<int>" / "<bytes>".
+
+    str()/repr()/format() of a symbolic int either realise it or fork once per digit, which turns
+    every error message mentioning a length field into an enumeration.  Harnesses whose oracle
+    never looks at message text (C04, C08, C13, ...) switch the rendering off; harnesses where the
+    digits matter (C01/C12 decimal big ints) do not call this.
+    """
+    from crosshair.libimpl import builtinslib as bl
+
+    def _repr(self):
+        return "<int>"
+
+    def _format(self, fmt):
+        return "<int>"
+
+    for cls in (bl.SymbolicInt,):
+        cls.__repr__ = _repr
+        cls.__str__ = _repr
+        cls.__format__ = _format
+
+    def _brepr(self):
+        return "<bytes>"
+
+    bl.SymbolicBytes.__repr__ = _brepr
+    bl.SymbolicBytes.__format__ = lambda self, fmt: "<bytes>"
